@@ -51,7 +51,7 @@ theorem fv_fva_subset_names (t : IR) : (∀ y ∈ fv t, y ∈ names t) ∧ (∀ 
   induction t
   case ref | i32 | i64 | f32 | f64 | str | bool | na | anil | snil | tnil => simp [fv, fva, names]
   case cast ih | ascribe ih | isNA ih | un ih | arrayLen ih | toArray ih | toStream ih | getField ih | getTupleElement ih
-    | toSet ih | toDict ih => simpa [fv, fva, names] using ih
+    | toSet ih | toDict ih | applyFn ih => simpa [fv, fva, names] using ih
   case bin iha ihb | cmp iha ihb | acons iha ihb | arrayRef iha ihb | scons iha ihb | insertField iha ihb | tcons iha ihb
     | dictGet iha ihb =>
     simp only [fv, fva, names, List.mem_append]
@@ -99,7 +99,7 @@ theorem subst_of_not_free (x : Name) (v : IR) (t : IR) : x ∉ fv t → subst x 
   case streamAgg y a q iha _ => intro h; simp only [fv, List.mem_append, not_or] at h; simp [subst, iha h.1.1]
   case aggLet y e b _ ihb | aggExplode y e b _ ihb => intro h; simp only [fv] at h; simp [subst, ihb h]
   case aggFilter c b _ ihb | aggGroupBy c b _ ihb => intro h; simp only [fv] at h; simp [subst, ihb h]
-  case cast | ascribe | isNA | un | arrayLen | toArray | toStream | getField | getTupleElement | toSet | toDict =>
+  case cast | ascribe | isNA | un | arrayLen | toArray | toStream | getField | getTupleElement | toSet | toDict | applyFn =>
     rename_i ih; intro h; simp only [fv] at h; simp [subst, ih h]
   case bin | cmp | acons | arrayRef | scons | insertField | tcons | dictGet =>
     rename_i iha ihb; intro h; simp only [fv, List.mem_append, not_or] at h; simp [subst, iha h.1, ihb h.2]
@@ -256,7 +256,7 @@ theorem eval_subst (x : Name) (v : IR) (t : IR) :
       simp [lookup_cons, this]
     · rw [eval_A_irrel v ρ A _ hs.1]
       exact ihb ρ _ hs.2
-  case cast | ascribe | isNA | un | arrayLen | toArray | toStream | getField | getTupleElement | toSet | toDict =>
+  case cast | ascribe | isNA | un | arrayLen | toArray | toStream | getField | getTupleElement | toSet | toDict | applyFn =>
     rename_i ih
     intro ρ A hs
     simp only [subst, eval]
@@ -395,6 +395,27 @@ theorem eval_subst (x : Name) (v : IR) (t : IR) :
 
 /-! ## substitution in the aggregation scope -/
 
+theorem substA_of_not_fva (x : Name) (v : IR) (t : IR) : x ∉ fva t → substA x v t = t := by
+  induction t
+  case ref | i32 | i64 | f32 | f64 | str | bool | na | anil | snil | tnil => intros; simp [substA]
+  case cast | ascribe | isNA | un | arrayLen | toArray | toStream | getField | getTupleElement | toSet | toDict | applyFn =>
+    rename_i ih; intro h; simp only [fva] at h; simp [substA, ih h]
+  case bin | cmp | acons | arrayRef | scons | insertField | tcons | dictGet | let_ | streamMap | streamFilter =>
+    rename_i iha ihb; intro h; simp only [fva, List.mem_append, not_or] at h; simp [substA, iha h.1, ihb h.2]
+  case ite iha ihb ihc | streamFold iha ihb ihc | streamScan iha ihb ihc =>
+    intro h; simp only [fva, List.mem_append, not_or] at h; simp [substA, iha h.1.1, ihb h.1.2, ihc h.2]
+  case streamAgg y a q iha _ => intro h; simp only [fva] at h; simp [substA, iha h]
+  case agg op a _ => intro h; simp only [fva] at h; simp [substA, subst_of_not_free x v a h]
+  case aggFilter c b _ ihb | aggGroupBy c b _ ihb =>
+    intro h; simp only [fva, List.mem_append, not_or] at h; simp [substA, subst_of_not_free x v c h.1, ihb h.2]
+  case aggLet y e b _ ihb | aggExplode y e b _ ihb =>
+    intro h; simp only [fva, List.mem_append, mem_remove, not_or, not_and, Decidable.not_not] at h
+    simp only [substA, subst_of_not_free x v e h.1]
+    by_cases hyx : y = x
+    · simp [hyx]
+    · have : x ∉ fva b := fun hm => hyx (h.2 hm).symm
+      simp [hyx, ihb this]
+
 /-- **Substitution lemma, aggregation scope**: extending every element environment by `x ↦ v` (what `AggLet x v` does) and
 evaluating `t` is evaluating `t` with `v` substituted for `x` in its aggregation-scope children. -/
 theorem eval_substA (x : Name) (v : IR) (t : IR) :
@@ -402,7 +423,7 @@ theorem eval_substA (x : Name) (v : IR) (t : IR) :
       eval ρ (A.map fun σ => (x, eval σ [] v) :: σ) t = eval ρ A (substA x v t) := by
   induction t
   case ref | i32 | i64 | f32 | f64 | str | bool | na | anil | snil | tnil => intros; simp [substA, eval]
-  case cast | ascribe | isNA | un | arrayLen | toArray | toStream | getField | getTupleElement | toSet | toDict =>
+  case cast | ascribe | isNA | un | arrayLen | toArray | toStream | getField | getTupleElement | toSet | toDict | applyFn =>
     rename_i ih
     intro ρ A hs
     simp only [substA, eval]
@@ -520,8 +541,22 @@ theorem eval_substA (x : Name) (v : IR) (t : IR) :
         simp only [lookup_cons, hyx]
         split <;> rfl
     · rw [if_neg hyx]
-      rcases hyb with hyb | hyb
+      rcases hyb with (hyb | hyb) | hyb
       · exact absurd hyb hyx
+      · -- the body does not read `x` from the aggregation scope
+        rw [substA_of_not_fva x v b hyb]
+        apply eval_agree b ρ ρ _ _ (fun _ _ => rfl)
+        refine Rel2.flatMap _ _ ?_ (Rel2.refl (R := Eq) (fun _ => rfl) A)
+        intro σ σ' hσ
+        subst hσ
+        simp only [he]
+        cases asArr (eval σ [] (subst x v e)) with
+        | error o => exact .nil
+        | ok vs =>
+          apply Rel2.of_map
+          intro w z hz
+          have hxz : ¬ x = z := fun e => hyb (e ▸ hz)
+          simp only [lookup_cons, hxz, if_false]
       · rw [← ihb ρ _ hyb.2, List.map_flatMap]
         apply eval_agree b ρ ρ _ _ (fun _ _ => rfl)
         refine Rel2.flatMap _ _ ?_ (Rel2.refl (R := Eq) (fun _ => rfl) A)
@@ -562,8 +597,14 @@ theorem eval_substA (x : Name) (v : IR) (t : IR) :
       simp only [Function.comp, he, lookup_cons, hyx]
       split <;> rfl
     · rw [if_neg hyx]
-      rcases hyb with hyb | hyb
+      rcases hyb with (hyb | hyb) | hyb
       · exact absurd hyb hyx
+      · rw [substA_of_not_fva x v b hyb]
+        apply eval_agree b ρ ρ _ _ (fun _ _ => rfl)
+        apply Rel2.of_map
+        intro σ z hz
+        have hxz : ¬ x = z := fun e => hyb (e ▸ hz)
+        simp only [Function.comp, he, lookup_cons, hxz, if_false]
       · rw [← ihb ρ _ hyb.2, List.map_map]
         apply eval_agree b ρ ρ _ _ (fun _ _ => rfl)
         apply Rel2.of_map
@@ -626,7 +667,7 @@ theorem eval_inlineCse (t : IR) : inlineOk t = true → ∀ ρ A, eval ρ A (inl
     simp [inlineCse, eval, this, ihb h.2]
   case streamAgg x a q iha ihq =>
     intro h ρ A; simp only [inlineOk, Bool.and_eq_true] at h; simp [inlineCse, eval, iha h.1, ihq h.2]
-  case cast | ascribe | isNA | un | arrayLen | toArray | toStream | getField | getTupleElement | toSet | toDict =>
+  case cast | ascribe | isNA | un | arrayLen | toArray | toStream | getField | getTupleElement | toSet | toDict | applyFn =>
     rename_i ih; intro h ρ A; simp only [inlineOk] at h; simp [inlineCse, eval, ih h]
   case bin | cmp | acons | arrayRef | scons | insertField | tcons | dictGet | streamMap | streamFilter =>
     rename_i iha ihb; intro h ρ A; simp only [inlineOk, Bool.and_eq_true] at h; simp [inlineCse, eval, iha h.1, ihb h.2]
@@ -663,6 +704,7 @@ theorem scopeOk_sound (t : IR) : ∀ Γ Δ, scopeOk Γ Δ t = true → WellScope
   case getField ih => intro Γ Δ h; exact .getField (ih Γ Δ (by simpa [scopeOk] using h))
   case getTupleElement ih => intro Γ Δ h; exact .getTupleElement (ih Γ Δ (by simpa [scopeOk] using h))
   case toSet ih => intro Γ Δ h; exact .toSet (ih Γ Δ (by simpa [scopeOk] using h))
+  case applyFn ih => intro Γ Δ h; exact .applyFn (ih Γ Δ (by simpa [scopeOk] using h))
   case toDict ih => intro Γ Δ h; exact .toDict (ih Γ Δ (by simpa [scopeOk] using h))
   case bin iha ihb =>
     intro Γ Δ h; simp only [scopeOk, Bool.and_eq_true] at h; exact .bin (iha Γ Δ h.1) (ihb Γ Δ h.2)
@@ -735,7 +777,7 @@ theorem fv_fva_of_wellScoped {Γ Δ t} (h : WellScoped Γ Δ t) :
     simp only [fv, fva, List.mem_singleton, List.not_mem_nil]
     exact ⟨fun y hy => hy ▸ hx, fun y hy => hy.elim⟩
   case cast ih | ascribe ih | isNA ih | un ih | arrayLen ih | toArray ih | toStream ih | getField ih | getTupleElement ih | toSet ih
-    | toDict ih => simpa [fv, fva] using ih
+    | toDict ih | applyFn ih => simpa [fv, fva] using ih
   case bin iha ihb | cmp iha ihb | acons iha ihb | arrayRef iha ihb | scons iha ihb | insertField iha ihb | tcons iha ihb
     | dictGet iha ihb =>
     simp only [fv, fva, List.mem_append]
@@ -810,7 +852,7 @@ theorem aggFree_abstractAt (x : Name) (v : IR) (F : List Name) (t : IR) :
   case streamAgg | aggLet | aggFilter | agg | aggExplode | aggGroupBy => intro h; simp [aggFree] at h
   case ref | i32 | i64 | f32 | f64 | str | bool | na | anil | snil | tnil =>
     intro _; simp only [abstractAt]; split <;> simp [aggFree]
-  case cast | ascribe | isNA | un | arrayLen | toArray | toStream | getField | getTupleElement | toSet | toDict =>
+  case cast | ascribe | isNA | un | arrayLen | toArray | toStream | getField | getTupleElement | toSet | toDict | applyFn =>
     rename_i ih; intro h; simp only [aggFree] at h; simp only [abstractAt]; split <;> simp [aggFree, ih h]
   case bin | cmp | acons | arrayRef | scons | insertField | tcons | dictGet =>
     rename_i iha ihb; intro h; simp only [aggFree, Bool.and_eq_true] at h
@@ -853,7 +895,7 @@ theorem subst_abstractAt (x : Name) (v : IR) (F : List Name) (t : IR) :
     intro _; simp only [abstractAt]; split
     · rename_i e; simp [subst, e]
     · simp [subst]
-  case cast | ascribe | isNA | un | arrayLen | toArray | toStream | getField | getTupleElement | toSet | toDict =>
+  case cast | ascribe | isNA | un | arrayLen | toArray | toStream | getField | getTupleElement | toSet | toDict | applyFn =>
     rename_i ih; intro h; simp only [names] at h
     simp only [abstractAt]; split
     · rename_i e; simp [subst, e]
@@ -911,7 +953,7 @@ theorem substOk_abstractAt (x : Name) (v : IR) (F FA : List Name) (dep : Bool) (
   case streamAgg | aggLet | aggFilter | agg | aggExplode | aggGroupBy => intro h; simp [aggFree] at h
   case ref | i32 | i64 | f32 | f64 | str | bool | na | anil | snil | tnil =>
     intro _ _; simp only [abstractAt]; split <;> simp [substOk]
-  case cast | ascribe | isNA | un | arrayLen | toArray | toStream | getField | getTupleElement | toSet | toDict =>
+  case cast | ascribe | isNA | un | arrayLen | toArray | toStream | getField | getTupleElement | toSet | toDict | applyFn =>
     rename_i ih; intro ha hx; simp only [aggFree] at ha; simp only [names] at hx
     simp only [abstractAt]; split <;> simp [substOk, ih ha hx]
   case bin | cmp | acons | arrayRef | scons | insertField | tcons | dictGet =>
